@@ -72,10 +72,11 @@ def rand_spec(rng, n: Optional[int] = None) -> Dict[str, Any]:
         nodes.append([i + 1, rng.choice(ELEMENTS), None if no_charge else rng.choice([0, 0, 0, 1]), h])
     edges = []
     p = rng.choice([0.3, 0.5, 0.7])
+    no_order = rng.random() < 0.12   # some edges without an 'order' attribute (helpers with defaults read it as 1)
     for i in range(n):
         for j in range(i + 1, n):
             if rng.random() < p:
-                edges.append([i + 1, j + 1, rng.choice([1, 1, 2])])
+                edges.append([i + 1, j + 1, (None if (no_order and rng.random() < 0.5) else rng.choice([1, 1, 2]))])
     return {"nodes": nodes, "edges": edges}
 
 
@@ -110,7 +111,7 @@ def edit_spec(sp: Dict[str, Any], rng) -> Dict[str, Any]:
         n[1] = "O" if n[1] == "C" else "C"
     elif c < 0.6 and sp["edges"]:
         e = rng.choice(sp["edges"])
-        e[2] = 3 - e[2]
+        e[2] = {None: 2, 1: 2, 2: 1}[e[2]]
     elif c < 0.75 and sp["edges"]:
         sp["edges"].remove(rng.choice(sp["edges"]))
     elif c < 0.9:
@@ -147,7 +148,10 @@ def build(sp: Dict[str, Any]) -> nx.Graph:
             d["hcount"] = h
         g.add_node(n, **d)
     for u, v, o in sp["edges"]:
-        g.add_edge(u, v, order=o)
+        if o is None:
+            g.add_edge(u, v)
+        else:
+            g.add_edge(u, v, order=o)
     return g
 
 
@@ -223,7 +227,7 @@ def generate(seed: int, tier: str = "quick") -> Dict[str, Any]:
                         "check_type": rng.choice(["induced", "monomorphism"]),
                         "api": rng.choice(["SubgraphMatch.subgraph_isomorphism", "SubgraphMatch.is_subgraph", "graph_morphism.subgraph_isomorphism"]),
                         "labels": rng.choice([["element", "charge"], ["element"]]),
-                        "style": rng.choice(["explicit", "explicit", "defaults", "names_only"])})
+                        "style": rng.choice(["explicit", "explicit", "defaults", "names_only", "bare"])})
         elif c < 0.92:
             ops.append({"op": "q_giso", "s": s(), "i": rng.randrange(8), "j": rng.randrange(8)})
         else:
@@ -475,7 +479,7 @@ def _run(case: Dict[str, Any], sim: Sim, world: World) -> None:
             site = api
             res = {}
             style = op.get("style", "explicit")
-            if style == "defaults":
+            if style in ("defaults", "bare"):
                 labels, defaults = ["element", "charge"], ["*", 0]   # what the signatures document
             fn = {"SubgraphMatch.subgraph_isomorphism": SubgraphMatch.subgraph_isomorphism,
                   "SubgraphMatch.is_subgraph": SubgraphMatch.is_subgraph,
@@ -486,8 +490,15 @@ def _run(case: Dict[str, Any], sim: Sim, world: World) -> None:
                 elif style == "defaults":
                     # rely on the signature defaults (a shared mutable default must not drift with history)
                     r = fn(ch["g"], pa["g"], use_filter=filt, check_type=ct)
-                else:
+                elif style == "names_only":
                     r = fn(ch["g"], pa["g"], node_label_names=list(labels), use_filter=filt, check_type=ct)
+                else:  # "bare": every documented default (use_filter=False, check_type="induced") is relied upon when it applies
+                    kw = {}
+                    if filt:
+                        kw["use_filter"] = True
+                    if ct != "induced":
+                        kw["check_type"] = ct
+                    r = fn(ch["g"], pa["g"], **kw)
                 res[filt] = bool(r)
             if style != "explicit":
                 sim.probe("call_relying_on_signature_defaults")
@@ -603,7 +614,7 @@ def simplify(case: Dict[str, Any]) -> Iterable[Dict[str, Any]]:
                         n["spec"]["nodes"][d][fld] = val
                         yield repl(n)
             for d, e in enumerate(sp["edges"]):
-                if e[2] != 1:
+                if e[2] not in (1, None):
                     n = copy.deepcopy(op)
                     n["spec"]["edges"][d][2] = 1
                     yield repl(n)
